@@ -134,7 +134,10 @@ def judge_positive_part(doc, version, location, declared, raw, what="value"):
     for name, value in raw.items():
         if name not in declared:
             if location == "header" and name.lower() in ("x-api-key", "authorization"):
-                continue  # security parameters of the document's schemes
+                if gen.effective_security(doc):
+                    continue  # security parameters of the document's schemes
+                viols.append(("C01/security-parameter-generated-for-an-operation-without-requirements", f"{name}={value!r:.60}"))
+                continue
             viols.append((f"C01/{location}-undeclared-parameter-generated", f"{name}={value!r:.60}"))
             continue
         schema, _ = declared[name]
